@@ -309,6 +309,17 @@ def check_writers(ctx, fb, rw):
                 ok = True
                 reason = 'renamed member of a routing class (%s no longer writes it)' % ', '.join(
                     sorted(x.split('::')[-1] for x in missing))
+        if not ok and 'virtual' not in f.flags:
+            # a helper that only the routing sites themselves use (the write was moved out of them, not added)
+            callers = set()
+            for g in fb.fn.values():
+                if g.cfg is None or g.qn == qn:
+                    continue
+                if any(c.get('cn') == qn for c in g.calls()):
+                    callers.add(g.qn)
+            if callers and all(c in WRITERS for c in callers):
+                ok = True
+                reason = 'helper used only by routing sites (%s)' % ', '.join(sorted(c.split('::')[-1] for c in callers))
         ctx.instance(rw, key, dict(writer=qn, where=f.loc(n), reason=reason or '(not in table)'))
         if not ok:
             ctx.report(rw, key, f.loc(n), 'BaseCore::_executor is written by a function that is not one of the routing '
@@ -423,8 +434,18 @@ def run(ctx):
                    'implements the sequence it stands for: no job is lost or duplicated by the container', minimum=24)
     rjf = ctx.rule('R-JOBFIELDS', '(shared with C07) every member of Strand that can hold jobs and is used by Call() is '
                    'drained by Drop() too', minimum=1)
-    from rules import lib_list
+    raf = ctx.rule('R-ATTACHFORM', 'every public attach form hands the step factory what its name and signature promise: '
+                   '(e, f) forms pass &e and submit, (f) forms pass nullptr and submit to the inherited executor, '
+                   '*Inline forms never submit; Then / Detach / Lazy bits and the On flavour follow the form', minimum=17)
+    rob = ctx.rule('R-STRAND.one-batch', '(shared with C07) Strand::Call detaches one batch per invocation: jobs that '
+                   'arrive later go through a new submission to the underlying executor, where a stop is noticed and '
+                   'they are Dropped', minimum=1)
+    from rules import lib_list, lib_attach
     for cfg, fb in sorted(fbs.items()):
+        ctx.guard(lambda: lib_attach.check_attach_forms(ctx, fb, raf, None, 17))
+        from rules import c07
+        if (ctx.guard(lambda: c07.check_one_batch(ctx, fb, rob)) or 0) < 1:
+            ctx.guard(lambda: ctx.broken('R-STRAND.one-batch: Strand::Call not found'))
         ctx.guard(lambda: lib_exec.check_pool_lockset(ctx, fb, rpk, rpd))
         ctx.guard(lambda: lib_exec.check_pool_wake(ctx, fb, rwk, rff, rja))
         ctx.guard(lambda: lib_list.check_list_spec(ctx, fb, rls))
